@@ -153,6 +153,13 @@ def generate(tier, seed, work, stats):
     for i in range(400 if tier == "quick" else 6000):
         c = base[(i * 13) % len(base)]
         cases.append(dict(kind="inter", rules=c["rules"], nts=c["nts"], idx=c["idx"], operand=ops[i % len(ops)], family="inter"))
+    # intersections with random automata over two letters, the second letter spelled like a non-terminal of the grammar
+    igs = [c for c in cases if c["kind"] == "ig" and len(c["rules"]) <= 5]
+    rops = [o for o in c01.random_cases(800 if tier == "quick" else 8000, seed + 20, nq=3, nt=4) if o["kind"] != "dfa" or True]
+    for i, o in enumerate(rops):
+        c = igs[(i * 7) % len(igs)]
+        cases.append(dict(kind="inter", rules=c["rules"], nts=c["nts"], idx=c["idx"], operand=dict(fkind=o["kind"], calls=o["calls"]),
+                          ypool=("ntlike", "ab")[i % 3 == 0], family="inter-two-letters"))
     # other start variables than the default "S", and a consumption rule listed twice
     extra = []
     for i, c in enumerate(cases):
@@ -162,6 +169,8 @@ def generate(tier, seed, work, stats):
             extra.append(dict(c, repeat_pop=True, family=c["family"] + "-repeated-consumption-rule"))
         if i % 7 == 3:
             extra.append(dict(c, idxvals="int", family=c["family"] + "-integer-index-symbols"))
+        if c.get("kind") == "inter" and i % 2 == 0:
+            extra.append(dict(c, ypool="ntlike", family=c["family"] + "-letters-spelled-like-non-terminals"))
     return cases + extra
 
 
@@ -228,7 +237,7 @@ def replay(case):
         return _IG(rules) if start == "S" else _IG(rules, start)
     G = {"start": start, "nts": case["nts"], "idx": case["idx"], "rules": case["rules"]}
     if case["kind"] == "inter":
-        ccalls, _ = fa.concrete(case["operand"]["calls"], "int", "ab")
+        ccalls, _ = fa.concrete(case["operand"]["calls"], "int", case.get("ypool", "ab"))
         a, _ = fa.build(case["operand"]["fkind"], ccalls)
         A = fa.project(a)
         # the automaton reads the raw terminal "a": project symbols untagged for the product
